@@ -19,6 +19,8 @@ SMOKE = [
     ('IntValue', 'MC_IntValue_smoke.cfg', None),
     ('ChoiceMatch', 'MC_ChoiceMatch.cfg', ('ScoreInUnit', 'NoRaise')),
     ('ChoiceMatch', 'MC_ChoiceMatch_fixed.cfg', None),
+    ('SelectCandidates', 'MC_SelectCandidates.cfg', None),
+    ('SelectCandidates', 'MC_SelectCandidates_prefix.cfg', 'Disjoint'),
 ]
 
 
